@@ -1866,6 +1866,10 @@ impl Zeroconf {
         }
 
         for ip in deleted_ips {
+            // An address that moved to another interface is still ours.
+            if my_ifaddrs.iter().any(|intf| intf.ip() == ip) {
+                continue;
+            }
             self.del_ip(ip);
         }
 
